@@ -22,7 +22,7 @@ import (
 var c06alphabet = []string{"G", "Gc", "X", "C", "E4", "E5", "Gd", "Gh"}
 
 // validator kinds of a resource
-var c06kinds = []string{"both", "etag", "lastmod", "none", "weak"}
+var c06kinds = []string{"both", "etag", "lastmod", "none", "weak", "lastmod-rfc850", "lastmod-asctime"}
 
 type c06resState struct {
 	kind    string
@@ -50,8 +50,22 @@ func c06lastmod(kind string, v int) string {
 	switch kind {
 	case "both", "lastmod":
 		return rig.LastMod(v)
+	case "lastmod-rfc850", "lastmod-asctime":
+		// the obsolete but valid date forms an origin may still write
+		t, _ := http.ParseTime(rig.LastMod(v))
+		if kind == "lastmod-rfc850" {
+			return t.UTC().Format("Monday, 02-Jan-06 15:04:05 GMT")
+		}
+		return t.UTC().Format(time.ANSIC)
 	}
 	return ""
+}
+
+// c06sameDate: two HTTP dates denote the same instant (the proxy may re-render the stored date in IMF form).
+func c06sameDate(a, b string) bool {
+	ta, ea := http.ParseTime(a)
+	tb, eb := http.ParseTime(b)
+	return ea == nil && eb == nil && ta.Equal(tb)
 }
 
 func (w *c06world) handler(rw http.ResponseWriter, q *http.Request, rec *rig.OriginReq) {
@@ -79,7 +93,7 @@ func (w *c06world) handler(rw http.ResponseWriter, q *http.Request, rec *rig.Ori
 	if inm := q.Header.Get("If-None-Match"); inm != "" {
 		notMod = et != "" && inm == et
 	} else if ims := q.Header.Get("If-Modified-Since"); ims != "" {
-		notMod = lm != "" && ims == lm
+		notMod = lm != "" && c06sameDate(ims, lm)
 	}
 	if notMod {
 		if et != "" {
@@ -293,7 +307,7 @@ func c06hist(r *core.Recorder, p *rig.ProxyRig, o *rig.Origin, w *c06world, mode
 			if wantET == "" && inm != "" {
 				viol("wrong-validator:if-none-match-invented:"+kind, fmt.Sprintf("no ETag was stored, the origin received If-None-Match=%q", inm))
 			}
-			if wantLM != "" && ims != wantLM {
+			if wantLM != "" && !c06sameDate(ims, wantLM) {
 				viol("wrong-validator:if-modified-since:"+kind, fmt.Sprintf("stored Last-Modified is %q, the origin received If-Modified-Since=%q", wantLM, ims))
 			}
 			if wantLM == "" && ims != "" {
@@ -420,7 +434,7 @@ func init() {
 		ID:    "C06",
 		Level: "exploration",
 		Rule: "per resource: an initial GET followed by every sequence up to <depth> over {G, Gc (client If-None-Match/If-Modified-Since or If-Match/If-Unmodified-Since carrying sentinels), Gd (same with RFC 850 dates / weak tag), Gh (client Connection header nominating the conditional field names), X (force-expire the stored entry), C (origin changes content and validators), E4, E5 (origin answers the next request 404 / 500)} plus seeded random sequences up to depth+10, " +
-			"for each validator kind {ETag+Last-Modified, ETag only, Last-Modified only, none, weak ETag}, both backends, plain (all) and tunnel (every 4th). A sequential model of what the proxy must hold predicts every origin-side request (validators) and client response. Non-trivial = distinct history with at least one revalidation.",
+			"for each validator kind {ETag+Last-Modified, ETag only, Last-Modified only, none, weak ETag, Last-Modified in RFC 850 form, in asctime form}, both backends, plain (all) and tunnel (every 4th). A sequential model of what the proxy must hold predicts every origin-side request (validators) and client response. Non-trivial = distinct history with at least one revalidation.",
 		Assumptions: []string{"entries are made stale through the tag-guarded expiry accessor instead of sleeping; the lifetime logic itself is C03's subject", "when the origin sent no Last-Modified, If-Modified-Since may be absent or the receipt time",
 			"a request reaching the origin although the entry is fresh is not judged here (C03/C04)"},
 		Plan:     c06Plan,
